@@ -253,6 +253,25 @@ func catalogue() []entry {
 					wantKey(x, kValidator(v.Val.Addr), true))
 			},
 		})
+	// a SELF-STAKED node: the validator's own account is its stake account, so ONE account holds both signer roles
+	// of the transaction and signs twice. (Added after a seeded change - a repeated signer verified only once, the
+	// signature bytes of its second slot never looked at - escaped the signature operators: every two-signer
+	// scenario had two different accounts.)
+	add(action.STAKE, "stake-new-validator-that-is-its-own-stake-account", defaultWorld("stake-self"),
+		func(w *W) []B {
+			return seq(empties(2), one(blk(Send(w.Users[0], w.Vals[3].Val.Addr, harness.Coin("OLT", harness.OLTUnits(2000000)), "fund-the-node"))))
+		},
+		func(w *W) *T {
+			v := w.Vals[3]
+			return StakeRaw(v.Val, v.Val, v.Val.Pub, v.Ecdsa.Pub, v.Name, WholeOLT(600000), "stake-self-1")
+		},
+		5, Expect{
+			Touched: []string{"st__t_", "v_"},
+			Final: func(x *harness.Run) error {
+				v := x.W.Vals[3]
+				return firstErr(wantTM(x, v, true), wantKey(x, kValidator(v.Val.Addr), true))
+			},
+		})
 	add(action.STAKE, "stake-new-validator-below-minimum", defaultWorld("stake-low"),
 		func(w *W) []B { return empties(2) },
 		func(w *W) *T { return Stake(w.Vals[3], w.Vals[3].Stake, WholeOLT(1000), "stake-low-1") },
@@ -443,7 +462,8 @@ func catalogue() []entry {
 	add(action.WITHDRAW_REWARD, "withdraw-reward-third-party-after-validator-gone", richRewardsWorld("wreward-gone"),
 		func(w *W) []B {
 			v := w.Vals[2]
-			return seq(empties(5), one(blk(Unstake(v.Val, v.Stake, WholeOLT(1000000), "wrg-unstake"))), empties(2))
+			// (the record of a validator that unstaked everything is kept until it has left Tendermint's set)
+			return seq(empties(5), one(blk(Unstake(v.Val, v.Stake, WholeOLT(1000000), "wrg-unstake"))), empties(6))
 		},
 		func(w *W) *T { return WithdrawReward(w.Vals[2].Val.Addr, w.Users[2], WholeOLT(5), "wrg-1") },
 		1, Expect{
@@ -533,6 +553,24 @@ func catalogue() []entry {
 					wantContains(x, kStatus(v.Val.Addr), `"isActive":true`))
 			},
 		})
+	// the same release around a DAYLIGHT-SAVING change: the chain starts on 13 March 2021 noon UTC, the verdict
+	// falls a minute later, US clocks go forward at 07:00 UTC the next morning. A release sent 23.5 hours after the
+	// verdict is too early by the chain's clock whatever a node's own time zone says ("one day" = 24 hours of
+	// block time); the target comes after the full day. (Added after a seeded change - the release time computed
+	// with calendar days of the node's LOCAL zone - escaped replicas that all ran in UTC; the outsider replica of
+	// the determinism check now runs in America/New_York.)
+	add(action.RELEASE, "release-a-day-after-the-verdict-across-a-daylight-saving-change", func() *harness.World {
+		w := harness.NewWorld("stk-release-dst", 4, 3)
+		w.GenesisTime = time.Date(2021, 3, 13, 12, 0, 0, 0, time.UTC)
+		return w
+	},
+		func(w *W) []B {
+			return seq(guiltyPrefix("rd")(w), one(blk(AllegationVote(reqID, w.Vals[1].Val, Yes, "rd-v2"))),
+				empties(1), one(harness.BlockSpec{Dt: 23*time.Hour + 30*time.Minute}),
+				one(harness.BlockSpec{Txs: []*T{Release(w.Vals[2].Val, "rd-release-too-early")}, MayFail: true}), one(harness.BlockSpec{Dt: time.Hour}))
+		},
+		func(w *W) *T { return Release(w.Vals[2].Val, "rd-release") },
+		4, Expect{Touched: []string{"es__ssvk_"}})
 	add(action.RELEASE, "release-after-missed-votes", missedVotesWorld("release-missed"),
 		func(w *W) []B {
 			// V3 misses the commits seen by blocks 4 and 5: 1 signature in the window (3,4,5) < 2 => frozen in
